@@ -146,3 +146,14 @@ Proof.
   change (r_comparable rf rs veq major root (CSq (SqCur l)) cur) with (as_value (RNodes (r_squery root (SqCur l) cur))).
   unfold rfc_value, as_value. destruct (r_squery root (SqCur l) cur) as [|n [|n2 r]]; reflexivity.
 Qed.
+
+(* hence a comparison whose operand is value(@.path) has the truth value of the comparison on @.path itself *)
+Theorem value_call_compares_as_path rf rs veq major root l cur op r :
+  r_atom rf rs veq major root (ACmp op (CFn (FnValue (ArgTest (TRel (sq_segs l))))) r) cur
+  = r_atom rf rs veq major root (ACmp op (CSq (SqCur l)) r) cur.
+Proof.
+  change (r_atom rf rs veq major root (ACmp op (CFn (FnValue (ArgTest (TRel (sq_segs l))))) r) cur)
+    with (rfc_compare op (as_value (r_tfun rf rs veq major root (FnValue (ArgTest (TRel (sq_segs l)))) cur))
+                         (r_comparable rf rs veq major root r cur)).
+  rewrite value_of_singular_is_operand. reflexivity.
+Qed.
